@@ -224,7 +224,7 @@ def group_spec(eqs=None, subgroups=None, **kw):
     g = dict(eqs=eqs or [], subgroups=subgroups or [], real=True,
              start_idx=0, stop_idx=None, iterate=False, min_iterations=0,
              max_iterations=1, condition=None, pre=False, post=False,
-             update_nnps=False)
+             update_nnps=False, name=None)
     g.update(kw)
     return g
 
@@ -270,7 +270,7 @@ def build_group(spec, log, tagp):
                  pre=cb('pre', tagp) if spec['pre'] else None,
                  post=cb('post', tagp) if spec['post'] else None,
                  condition=cond, start_idx=spec['start_idx'],
-                 stop_idx=spec['stop_idx'])
+                 stop_idx=spec['stop_idx'], name=spec.get('name'))
 
 
 def build_pack(programs, log, arrays, results):
@@ -382,6 +382,23 @@ def programs(thorough, seed):
                     e['nconv'] = 2
                 progs.append([plain(pre_dest, 1), g, plain('a', 4),
                               plain('b', 6)])
+    # (6) explicit group names are profiling labels only: groups and
+    #     sub-groups that share a name keep their own condition / pre / post
+    for i, (da, db) in enumerate(itertools.product(
+            [None] + devs, [('condition', 'never'), ('condition', 'always'),
+                            ('pre', True), ('post', True),
+                            ('condition', 't>0.5')])):
+        if da and da[0] in ('iterate', 'range', 'real', 'update_nnps'):
+            continue
+        ga = apply_dev(plain('a', 1), *da) if da else plain('a', 1)
+        gb = apply_dev(plain('b', 2), *db)
+        ga['name'] = gb['name'] = 'shared'
+        progs.append([ga, gb, plain('a', 4)])
+        progs.append([gb, ga, plain('b', 4)])
+        sa, sb = copy.deepcopy(ga), copy.deepcopy(gb)
+        sa['name'] = sb['name'] = 'sub'
+        progs.append([group_spec(subgroups=[sa, sb], name='sub',
+                                 pre=True, post=True), probe])
     # (4) sub-groups with their own condition / pre / post / real / range
     sub1 = group_spec([eq_spec(FULL, 'a', ('a', 'b'), p=3, c=1)])
     sub2 = group_spec([eq_spec(0b1011010, 'b', ('a', 'c'), p=5, c=2)])
@@ -422,6 +439,8 @@ def run_pack(progs, times):
     out = {}
     for side in ('compiled', 'reference'):
         arrays = make_arrays()
+        from vlib.build import reset_group_counter
+        reset_group_counter()
         log = []
         results = []
         groups = build_pack(progs, log, arrays, results)
@@ -434,7 +453,11 @@ def run_pack(progs, times):
             ae.set_nnps(nn)
             for (t, dt) in times:
                 del results[:]
-                ae.compute(t, dt)
+                try:
+                    ae.compute(t, dt)
+                except Exception as e:  # noqa
+                    # the generated code raised in the middle of a program
+                    results.append((-2, dict(exception=repr(e)), []))
                 res_t.append(list(results))
         else:
             ip = Interp(arrays, groups, kernel, nn)
@@ -452,6 +475,13 @@ def run_pack(progs, times):
 def compare(progs, out):
     probs = []
     for ti, (rc, rr) in enumerate(zip(out['compiled'], out['reference'])):
+        cexc = [st for (pj, st, lg) in rc if pj == -2]
+        if cexc:
+            # the compiled evaluation stopped in program len(rc)-1
+            probs.append((min(len(rc) - 1, len(progs) - 1),
+                          'call %d: compiled evaluator raised %s' % (
+                              ti, cexc[0].get('exception'))))
+            continue
         if len(rc) != len(rr):
             exc = [st for (pj, st, lg) in rr if pj == -1]
             if exc:
